@@ -9,6 +9,7 @@ import (
 	"errors"
 	"fmt"
 	"io"
+	"sync"
 
 	"golang.org/x/net/http2/hpack"
 )
@@ -228,7 +229,10 @@ type Conn struct {
 	GoAway   *RFrame
 	Frames   []RFrame // everything the server sent
 	AutoWU   bool
-	NoAck    bool // do not acknowledge the server's SETTINGS automatically
+	NoAck    bool                                       // do not acknowledge the server's SETTINGS automatically
+	OnData   func(stream uint32, data []byte, end bool) // optional: called for every DATA frame (payload without padding)
+	OnWU     func(stream uint32, n uint32)              // optional: called for every WINDOW_UPDATE
+	WMu      sync.Locker                                // optional: serialises this reader's own writes with other writers
 	contStrm uint32
 	contBuf  []byte
 	contEnd  bool
@@ -236,6 +240,14 @@ type Conn struct {
 
 func NewConn(rw io.ReadWriter) *Conn {
 	return &Conn{RW: rw, dec: hpack.NewDecoder(4096, nil), Resp: map[uint32]*Response{}, AutoWU: true}
+}
+
+func (c *Conn) write(b []byte) {
+	if c.WMu != nil {
+		c.WMu.Lock()
+		defer c.WMu.Unlock()
+	}
+	c.RW.Write(b)
 }
 
 func (c *Conn) resp(s uint32) *Response {
@@ -289,13 +301,13 @@ func (c *Conn) Step() (RFrame, error) {
 	switch f.Type {
 	case TSettings:
 		if f.Flags&FAck == 0 && !c.NoAck {
-			c.RW.Write(SettingsAck())
+			c.write(SettingsAck())
 		}
 	case TPing:
 		if f.Flags&FAck == 0 {
 			var d [8]byte
 			copy(d[:], f.Payload)
-			c.RW.Write(Ping(true, d))
+			c.write(Ping(true, d))
 		}
 	case THeaders:
 		p := f.Payload
@@ -333,16 +345,25 @@ func (c *Conn) Step() (RFrame, error) {
 				p = p[:len(p)-pad]
 			}
 		}
+		if c.OnData != nil {
+			c.OnData(f.Stream, p, f.Flags&FEndStream != 0)
+		}
 		r := c.resp(f.Stream)
-		r.Body = append(r.Body, p...)
+		if c.OnData == nil {
+			r.Body = append(r.Body, p...)
+		}
 		if f.Flags&FEndStream != 0 {
 			r.Ended = true
 		}
 		if c.AutoWU && len(f.Payload) > 0 {
-			c.RW.Write(WindowUpdate(0, uint32(len(f.Payload))))
+			c.write(WindowUpdate(0, uint32(len(f.Payload))))
 			if f.Flags&FEndStream == 0 {
-				c.RW.Write(WindowUpdate(f.Stream, uint32(len(f.Payload))))
+				c.write(WindowUpdate(f.Stream, uint32(len(f.Payload))))
 			}
+		}
+	case TWindowUpdate:
+		if c.OnWU != nil {
+			c.OnWU(f.Stream, f.U32(0)&0x7fffffff)
 		}
 	case TRSTStream:
 		r := c.resp(f.Stream)
